@@ -35,6 +35,8 @@ def extra_configs(tier, add):
     add("r1c1", lambda: E.FlatPack(generator=rnd(1, 1)), 3, batch=3)  # steps < 4: keeps the C02 mode harness on its catalog config
     add("r1c3-block", lambda: E.FlatPack(generator=rnd(1, 3), reward_fn=RW.BlockDenseReward()), 7)
     add("r2c2", lambda: E.FlatPack(generator=rnd(2, 2)), 7, batch=8)
+    add("r2c1", lambda: E.FlatPack(generator=rnd(2, 1)), 5, batch=4)   # non-square grid with the CELL reward (rows*cols != rows^2, cols^2)
+    add("r1c2", lambda: E.FlatPack(generator=rnd(1, 2)), 5, batch=4)
     add("toy-norot-block", lambda: E.FlatPack(generator=G.ToyFlatPackGeneratorNoRotation(), reward_fn=RW.BlockDenseReward()), 7, batch=4)
     add("r3c3", lambda: E.FlatPack(generator=rnd(3, 3)), 12)
     if tier != "quick":
